@@ -29,7 +29,7 @@ func TestVerif(t *testing.T) {
 			"for every capability profile of an in-process reference registry (Referrers API, digest header always/never/GET-only, Accept-Ranges, mount 201/202, HEAD and GET without Content-Length, OCI-Subject) and three option sets " +
 			"(default | PlainHTTP + page sizes 1 | custom ManifestMediaTypes + SkipReferrersGC); after every step a fixed battery of 17 reads (Fetch, FetchReference by tag/digest/tag@digest/fully-qualified, Exists, Resolve, Predecessors, Referrers with filter, Tags, Blobs().Resolve) " +
 			"is compared with the registry model's own state, and every request is checked by a validator of distribution-spec MUSTs; " +
-			"(b) every sequence of <= 3 (thorough 4) Read(k)/Seek(off,whence) calls on a blob reader over a 4-byte blob, compared with bytes.Reader; " +
+			"(b) every sequence of <= 3 (thorough 4) Read(k)/Seek(off,whence) calls on a blob reader over a 4-byte blob, compared with bytes.Reader, for a registry that sends Content-Length (the last byte then arrives together with io.EOF, as net/http delivers it) and one that answers chunked; " +
 			"(c) single-field corruption (digest header wrong/malformed, Content-Length +1/-1/absent, Content-Type other/garbage) of every response of every descriptor- or body-returning read: a contradiction with what was requested must produce an error. " +
 			"non-trivial = distinct (profile, history) with at least one Delete, re-tag or Mount",
 		Assumptions: []string{
@@ -498,24 +498,27 @@ func seekJobs(th bool) []driver.Job {
 	}
 	var out []driver.Job
 	nsh := 8
-	for sh := 0; sh < nsh; sh++ {
-		sh := sh
-		name := fmt.Sprintf("seek/depth%d/shard%d.%d", depth, sh, nsh)
-		out = append(out, driver.Job{Name: name, Run: func(c *driver.Ctx) {
-			c.Explore(driver.Scenario{Name: name, Sequential: true, Shard: sh, NShard: nsh, Bounds: explore.Bounds{Fault: 1},
-				Make: func() (func(), func(*vs.Result) *driver.Fail) { return seekRun(c, depth) }})
-		}})
+	for _, chunked := range []bool{false, true} {
+		for sh := 0; sh < nsh; sh++ {
+			sh, chunked := sh, chunked
+			name := fmt.Sprintf("seek/chunked=%v/depth%d/shard%d.%d", chunked, depth, sh, nsh)
+			out = append(out, driver.Job{Name: name, Run: func(c *driver.Ctx) {
+				c.Explore(driver.Scenario{Name: name, Sequential: true, Shard: sh, NShard: nsh, Bounds: explore.Bounds{Fault: 1},
+					Make: func() (func(), func(*vs.Result) *driver.Fail) { return seekRun(c, depth, chunked) }})
+			}})
+		}
 	}
 	return out
 }
 
-func seekRun(c *driver.Ctx, depth int) (func(), func(*vs.Result) *driver.Fail) {
+func seekRun(c *driver.Ctx, depth int, chunked bool) (func(), func(*vs.Result) *driver.Fail) {
 	var fail *driver.Fail
 	var hist []string
 	body := func() {
 		data := []byte("abcd")
 		desc := ocispec.Descriptor{MediaType: MTLayer, Digest: digest.FromBytes(data), Size: 4}
-		repo, g := newRepo(Profile{AcceptRanges: true}, optsets()[0])
+		// chunked: GET answers carry no Content-Length; otherwise the last byte of a body arrives together with io.EOF
+		repo, g := newRepo(Profile{AcceptRanges: true, NoGetLength: chunked}, optsets()[0])
 		g.Repo(repoName).Blobs[desc.Digest] = data
 		rc, err := repo.Fetch(context.Background(), desc)
 		if err != nil {
@@ -550,6 +553,9 @@ func seekRun(c *driver.Ctx, depth int) (func(), func(*vs.Result) *driver.Fail) {
 				n1, e1 := rs.Read(p1)
 				n2, e2 := ref.Read(p2)
 				hist = append(hist, fmt.Sprintf("Read(%d)=%d,%q,%v", sizes[k], n1, p1[:n1], e1))
+				if e1 == io.EOF && e2 == nil && n1 > 0 && ref.Len() == 0 {
+					e1 = nil // io.Reader allows the end to be reported together with the last bytes
+				}
 				if n1 != n2 || !bytes.Equal(p1[:n1], p2[:n2]) || (e1 == nil) != (e2 == nil) || e1 != nil && e1 != e2 {
 					fail = &driver.Fail{Sig: "Read on a seekable blob reader differs from bytes.Reader", Detail: fmt.Sprintf("%v\nreference: %d,%q,%v", hist, n2, p2[:n2], e2)}
 					return
